@@ -312,7 +312,7 @@ class Body:
 
 
 class Facts:
-    def __init__(self, fact_dir, crates=None):
+    def __init__(self, fact_dir, crates=None, aliases=True, config=None):
         self.dir = fact_dir
         self.crates = {}
         self.bodies = {}
@@ -320,14 +320,30 @@ class Facts:
         self.impls = []
         self.decl_only = set()
         self.files = []
+        raw = []
         for f in sorted(os.listdir(fact_dir)):
             if not f.endswith(".json"):
                 continue
             with open(os.path.join(fact_dir, f)) as fh:
                 d = json.load(fh)
-            cname = d["crate"]
-            if crates is not None and cname not in crates:
+            if crates is not None and d["crate"] not in crates:
                 continue
+            raw.append((f, d))
+        # Functions that were only *renamed or moved* (same signature, same callees) are given back the name the rules
+        # know them by; everything else about them is analysed as it stands. See `renamed_functions`.
+        self.aliases = renamed_functions([d for _, d in raw], config) if aliases else {}
+        if self.aliases:
+            rxs = [(re.compile(re.escape(n) + r"(?![A-Za-z0-9_])"), c) for n, c in sorted(self.aliases.items(), key=lambda kv: -len(kv[0]))]
+            raw2 = []
+            for f, _ in raw:
+                with open(os.path.join(fact_dir, f)) as fh:
+                    text = fh.read()
+                for rx, c in rxs:
+                    text = rx.sub(lambda m, c=c: c, text)
+                raw2.append((f, json.loads(text)))
+            raw = raw2
+        for f, d in raw:
+            cname = d["crate"]
             self.files.append(f)
             key = cname + ":" + d["tag"]
             self.crates[key] = {
@@ -430,6 +446,129 @@ class Facts:
 
 class AnchorLost(Exception):
     pass
+
+
+# ---- renamed / moved functions ---------------------------------------------------------------------------------------
+# The rules name the library's functions by path. A private function can be renamed, or moved to another module, without
+# any change of behaviour; reporting "anchor lost" for that would be an alarm on code where the property holds. The table
+# fn_fingerprints.json (tools/gen_fn_fingerprints.py, generated from the pinned tree and committed) records for every
+# function of the library crates its signature (parameter and return types with its own name blanked) and the set of
+# functions it calls. When a recorded function is missing from the tree under analysis and a function the table does not
+# know has the same signature in the same crate - and is the only such one, or by far the most similar by callees - the new
+# name is an alias of the recorded one. The body that is analysed is always the one in the tree; only its name is mapped.
+FP_FILE = os.path.join(os.path.dirname(os.path.abspath(__file__)), "fn_fingerprints.json")
+_FP_TABLE = None
+
+
+def _fp_candidate(b, crate):
+    return (
+        b["kind"] in ("Fn", "AssocFn")
+        and crate.startswith("jsonrpsee")
+        and not b.get("from_expansion")
+        and not b.get("impl_trait")
+        and not _TEST_RX.search(b["path"])
+        and "/tests/" not in b["file"]
+        and not b["file"].endswith("/tests.rs")
+        and "::_::" not in b["path"]
+        and "{" not in b["path"].rsplit("::", 1)[-1]
+    )
+
+
+def fn_fingerprint(b):
+    name = b["path"].rsplit("::", 1)[-1]
+    rx = re.compile(r"\b%s\b" % re.escape(name))
+    tys = [rx.sub("@", l["ty"]) for l in b["locals"][: b["argc"] + 1]]
+    return "|".join([b["kind"], str(b.get("impl_self"))] + tys)
+
+
+def fn_callees(raws):
+    """path of every candidate function -> set of callee names in it and in the closures nested in it"""
+    own = {}
+    parent = {}
+    for d in raws:
+        for b in d["bodies"]:
+            parent.setdefault(b["path"], b.get("parent"))
+            cs = own.setdefault(b["path"], set())
+            for blk in b["blocks"]:
+                t = blk["term"]
+                if t and t["t"] == "call":
+                    c = op_const(t["f"])
+                    if c is not None and "fn" in c:
+                        cs.add(c.get("res", c["fn"]))
+    out = {}
+    for p, cs in own.items():
+        r = p
+        seen = set()
+        while parent.get(r) and parent[r] in own and r not in seen:
+            seen.add(r)
+            r = parent[r]
+        out.setdefault(r, set()).update(cs)
+    return out
+
+
+def _load_fp_table():
+    global _FP_TABLE
+    if _FP_TABLE is None:
+        try:
+            with open(FP_FILE) as fh:
+                _FP_TABLE = json.load(fh)
+        except OSError:
+            _FP_TABLE = {}
+    return _FP_TABLE
+
+
+def renamed_functions(raws, config=None):
+    """{path in the tree: path the rules know} for functions that were renamed or moved, decided as described above."""
+    table = _load_fp_table()
+    if not table:
+        return {}
+    present = {}
+    crates = {d["crate"] for d in raws}
+    for d in raws:
+        for b in d["bodies"]:
+            if _fp_candidate(b, d["crate"]):
+                present.setdefault(b["path"], (d["crate"], b))
+    missing = [p for p, e in table.items() if p not in present and e["crate"] in crates and (config is None or config in e["cfgs"])]
+    if not missing:
+        return {}
+    new = [p for p in present if p not in table]
+    if not new:
+        return {}
+    callees = fn_callees(raws)
+    newfp = {}
+    for p in new:
+        crate, b = present[p]
+        newfp.setdefault((crate, fn_fingerprint(b)), []).append(p)
+
+    def sim(m, n):
+        a = set(table[m]["callees"])
+        # calls to functions that were themselves renamed are compared by their last segment only
+        b = callees.get(n, set())
+        a2 = {x.rsplit("::", 1)[-1] for x in a}
+        b2 = {x.rsplit("::", 1)[-1] for x in b}
+        if not a2 and not b2:
+            return 1.0
+        return len(a2 & b2) / float(len(a2 | b2))
+
+    pairs = []
+    for m in missing:
+        e = table[m]
+        for n in newfp.get((e["crate"], e["fp"]), []):
+            same_prefix = m.rsplit("::", 1)[0] == n.rsplit("::", 1)[0]
+            pairs.append((sim(m, n) + (0.05 if same_prefix else 0.0), m, n))
+    pairs.sort(reverse=True)
+    out = {}
+    used_m = set()
+    for sc, m, n in pairs:
+        if m in used_m or n in out:
+            continue
+        # the runner-up for either side must be clearly worse, and the bodies must still look alike
+        rivals = [s for s, m2, n2 in pairs if (m2 == m) != (n2 == n) and m2 not in used_m and n2 not in out]
+        if sc < 0.5 or (rivals and max(rivals) > sc - 0.15):
+            continue
+        out[n] = m
+        used_m.add(m)
+    return out
 
 
 _TEST_RX = re.compile(r"(::tests?::|::tests?$|::test_|::mock)")
